@@ -74,6 +74,9 @@ func bsFamily(c map[string]json.RawMessage) (interface{}, error) {
 			return nil, err
 		}
 		strip = dir
+		if boolean(c, "cli") {
+			return bsCli(c, dir)
+		}
 		nodes = *bs.NewBadSmellApp().AnalysisPath(dir)
 	} else {
 		if err := json.Unmarshal(c["nodes"], &nodes); err != nil {
@@ -96,4 +99,47 @@ func bsFamily(c map[string]json.RawMessage) (interface{}, error) {
 		return map[string]interface{}{"sorted": out}, nil
 	}
 	return map[string]interface{}{"list": conv(list, strip)}, nil
+}
+
+// bsCli: `coca bs -p dir [-x kinds] [-s type]`: coca_reporter/bs.json (a list, or a map kind -> list with -s type)
+func bsCli(c map[string]json.RawMessage, dir string) (interface{}, error) {
+	work, err := newWork()
+	if err != nil {
+		return nil, err
+	}
+	defer os.RemoveAll(work)
+	var ignore []string
+	_ = json.Unmarshal(c["ignore"], &ignore)
+	args := []string{"bs", "-p", dir}
+	if len(ignore) > 0 {
+		args = append(args, "-x", strings.Join(ignore, ","))
+	}
+	if boolean(c, "sort") {
+		args = append(args, "-s", "type")
+	}
+	if _, err := cocaCli(work, args...); err != nil {
+		return nil, err
+	}
+	b, err := getReport(work, "bs.json")
+	if err != nil {
+		return nil, err
+	}
+	if boolean(c, "sort") {
+		var sorted map[string][]bs_domain.BadSmellModel
+		if err := json.Unmarshal(b, &sorted); err != nil {
+			return map[string]interface{}{"reportUnreadable": err.Error()}, nil
+		}
+		out := map[string][]finding{}
+		for k, v := range sorted {
+			if fs := conv(v, dir); len(fs) > 0 {
+				out[k] = fs
+			}
+		}
+		return map[string]interface{}{"sorted": out}, nil
+	}
+	var list []bs_domain.BadSmellModel
+	if err := json.Unmarshal(b, &list); err != nil {
+		return map[string]interface{}{"reportUnreadable": err.Error()}, nil
+	}
+	return map[string]interface{}{"list": conv(list, dir)}, nil
 }
